@@ -171,41 +171,15 @@ theorem stun_noise_is_identity (s : St) (sock : Sock) (src : Addr) (i : Inp) (h 
 
 /-! ### histories with keepalive ticks -/
 
-/-- everything that happens to the transport: datagrams, keepalive ticks (with the transaction id the
-tick draws), the clock advancing -/
-inductive HEv where
-  | pkt (sock : Sock) (src : Addr) (i : Inp)
-  | tick (tx : Bytes)
-  | advance (t : Nat)
-
-def hstep (s : St) : HEv → St
-  | .pkt sock src i => (step s sock src i).1
-  | .tick tx => (tick s tx).1
-  | .advance t => { s with now := s.now + t }
-
-def hrun (s : St) (evs : List HEv) : St := evs.foldl hstep s
-
 /-- is this event noise in the state it meets? -/
-def HEv.noiseAt (s : St) : HEv → Bool
+def noiseAt (s : St) : HEv → Bool
   | .pkt _ src i => noise s src i
   | _ => false
 
 /-- the history with every noise event erased (each judged in the state it would have met) -/
 def eraseNoise (s : St) : List HEv → List HEv
   | [] => []
-  | e :: es => if e.noiseAt s then eraseNoise s es else e :: eraseNoise (hstep s e) es
-
-/-- lemma: the transport mode never changes -/
-theorem hstep_webrtc (s : St) (e : HEv) : (hstep s e).webrtc = s.webrtc := by
-  cases e with
-  | pkt sock src i =>
-    cases i with
-    | request r => simp [hstep, step]
-    | response tx er => simp only [hstep, step, handleResponse]; split <;> rfl
-    | data | indication => simp only [hstep, step]; split <;> rfl
-    | undecodable | empty => rfl
-  | tick tx => rfl
-  | advance t => rfl
+  | e :: es => if noiseAt s e then eraseNoise s es else e :: eraseNoise (hstep s e) es
 
 /-- **unauth_history_inert** (the property over histories, ticks included): ERASING every noise event —
 unauthenticated requests, unmatched responses, garbage, indications and media from anyone but the selected
@@ -217,12 +191,12 @@ theorem unauth_history_inert (s : St) (evs : List HEv) : hrun s evs = hrun s (er
   induction evs generalizing s with
   | nil => rfl
   | cons e es ih =>
-    by_cases hu : e.noiseAt s = true
+    by_cases hu : noiseAt s e = true
     · have he : hstep s e = s := by
         cases e with
         | pkt sock src i => exact stun_noise_is_identity s sock src i hu
-        | tick _ => simp [HEv.noiseAt] at hu
-        | advance _ => simp [HEv.noiseAt] at hu
+        | tick _ => simp [noiseAt] at hu
+        | advance _ => simp [noiseAt] at hu
       simp only [hrun, List.foldl_cons, he, eraseNoise, hu, ↓reduceIte]
       exact ih s
     · simp only [hrun, List.foldl_cons, eraseNoise, hu, Bool.false_eq_true, ↓reduceIte]
@@ -249,19 +223,6 @@ def rrun (P : Prims) (ufrag pwd : Bytes) (s : St) (evs : List REv) : St :=
 def REv.UnauthRequest (P : Prims) (ufrag pwd : Bytes) : REv → Prop
   | .pkt _ _ b => (∃ r, classify P ufrag pwd b = .request r) ∧ ¬ Credentials P ufrag pwd b
   | _ => False
-
-theorem classify_request_accepted (P : Prims) (ufrag pwd b : Bytes) (r : Req)
-    (h : classify P ufrag pwd b = .request r) : r.accepted = codeAuth P ufrag pwd b := by
-  unfold classify at h
-  split at h
-  · cases h
-  · split at h
-    · split at h
-      · split at h
-        · cases h; rfl
-        all_goals cases h
-      · cases h
-    · cases h
 
 theorem unauth_history_inert_raw (P : Prims) (ufrag pwd : Bytes) (s : St) (evs : List REv) (sel : REv → Bool)
     (hw : s.webrtc = true) (hsel : ∀ e ∈ evs, sel e = true → e.UnauthRequest P ufrag pwd) :
